@@ -339,6 +339,30 @@ pub fn check_history(c: &HistoryCase, mode: Mode, st: &mut Stats) -> Result<(), 
             }
         }
     }
+    // a copy made through the Clone trait (clone, and clone_from into a sign built with another address and flip style)
+    // is the source from then on: same answers, same transitions
+    {
+        let mut other = VirtualSign::new(Address(c.addr ^ 0x5A5A), flip(!c.automatic));
+        catch(|| other.clone_from(&sign)).map_err(|p| format!("clone_from of the sign after the history panicked: {p}"))?;
+        for probe in [M::Hello(c.addr), M::Query(c.addr), M::PixelsComplete(c.addr), M::Hello(c.addr ^ 0x5A5A), M::Req(c.addr, O_START_RESET)] {
+            let msg = probe.to_message();
+            let (mut a, mut b, mut d) = (sign.clone(), other.clone(), sign.clone());
+            let ra = catch(|| a.process_message(&msg).map(|r| M::from_message(&r))).map_err(|p| format!("sign panicked on {}: {p}", probe.short()))?;
+            let rb = catch(|| b.process_message(&msg).map(|r| M::from_message(&r))).map_err(|p| format!("copy of the sign panicked on {}: {p}", probe.short()))?;
+            let rd = catch(|| d.process_message(&msg).map(|r| M::from_message(&r))).map_err(|p| format!("clone of the sign panicked on {}: {p}", probe.short()))?;
+            if mode == Mode::C13 && (ra != rb || ra != rd || a.state() != b.state() || a.state() != d.state() || a.pages() != b.pages() || a.sign_type() != b.sign_type()) {
+                return Err(format!(
+                    "after the history, {} is answered {:?} (then {:?}) by the sign but {:?} (then {:?}) by a copy made with clone_from into a sign built with another address / flip style",
+                    probe.short(),
+                    ra.as_ref().map(|m| m.short()),
+                    a.state(),
+                    rb.as_ref().map(|m| m.short()),
+                    b.state()
+                ));
+            }
+        }
+        st.eval();
+    }
     let nontrivial = entered_receiving && model.irregular;
     if nontrivial {
         st.nontrivial(h64(c));
@@ -959,6 +983,29 @@ pub fn run(ctx: &Ctx, c13: bool) {
         Ok(())
     });
     ctx.part_done("every-height-short-transfers", true, json!("heights 1..=255 x widths {1,8,16} x {Horizon, Max3000} block layout: complete / last chunk lost / first chunk lost / short last chunk / complete"));
+
+    // (a''') many pages in ONE transfer (21 .. 255 pages with arbitrary page numbers, on one- and two-chunk pages and a real
+    // type): whatever the sign does with its stored pages when the transfer completes
+    crate::engine::par_range(ctx, "many-pages-one-transfer", 60, |i, st| {
+        let pages = [21u8, 32, 40, 64, 128, 255][(i % 6) as usize];
+        let block = match (i / 6) % 3 {
+            0 => Block::Raw(tiny_block(12, 8)),
+            1 => Block::Raw(tiny_block_max3000(20, 8, 8)),
+            _ => Block::Real(5),
+        };
+        let ops = vec![
+            HOp::Config { addr: 7, block, fault: Fault::None },
+            HOp::Pixels { addr: 7, pages, seed: 1000 + i, fault: Fault::None, complete: true },
+            HOp::Flip { addr: 7, steps: 7 },
+            HOp::Pixels { addr: 7, pages, seed: 2000 + i, fault: if i % 2 == 0 { Fault::Extra(0x8000) } else { Fault::CountDelta(-1) }, complete: true },
+            HOp::Msg(M::Query(7)),
+        ];
+        let c = HistoryCase { addr: 7, automatic: i % 2 == 1, ops };
+        check_history(&c, mode, st).map_err(|m| (serde_json::to_value(&c).unwrap(), m))?;
+        st.nontrivial_enumerated(1);
+        Ok(())
+    });
+    ctx.part_done("many-pages-one-transfer", true, json!("transfers of 21..255 pages with pseudo-random page numbers, three page sizes, both flip styles, followed by flips and an irregular second transfer"));
 
     // (b) random walks on a single sign
     run_generated(ctx, "walk", ctx.tier.pick(30_000, 1_000_000), || history_strategy(60), |c, st| check_history(c, mode, st));
